@@ -474,6 +474,82 @@ def run_greedy(case, ctx):
                                        "greedy_result": sorted(got)})
 
 
+# ------------------------------------------------- greedy with a separator
+def run_greedy_sep(case, ctx):
+    """S: a<op>![sep] T<tail>;  T: sep a;   The non-greedy form is ambiguous only in how many of the trailing
+    "sep a" pairs the list consumes, and both readings need an `a` after each separator, so greediness cannot cut
+    the language here (outside D15's class); the helper of `a` is used once (outside D16's class).  The oracle is
+    plain Python: the list takes every pair, T<tail> stays empty."""
+    op, tail, sepkind = case["op"], case["tail"], case["sep"]
+    sepname = {"terminal": "c", "rule": "Sep"}[sepkind]     # a separator is given by name (no inline strings)
+    def text_of(greedy):
+        return ("S: a%s%s[%s] T%s;\nT: %s a;\n%sterminals\na: 'a';\n%s" % (
+            op, "!" if greedy else "", sepname, tail, sepname,
+            "Sep: c;\n" if sepkind == "rule" else "", "c: ',';\n"))
+    text_g, text_n = text_of(True), text_of(False)
+    info0 = dict(greedy_grammar=text_g)
+    try:
+        glr_g = pgl.GLRParser(pgl.Grammar.from_string(text_g))
+        glr_n = pgl.GLRParser(pgl.Grammar.from_string(text_n))
+    except Exception as e:
+        ctx.fail("greedy-grammar-construction-raises", error=repr(e)[:300], **info0)
+    ctx.label("greedy-separator-grammars")
+    pair = (",", "a")     # a one-child rule passes its child's result on
+    for n in range(0, case["max_len"] + 1):
+        for w in itertools.product(["a", ","], repeat=n):
+            text = " ".join(w)
+            info = dict(input=text, **info0)
+            # reference: w = [a (, a)^k] (, a)^j
+            toks = list(w)
+            head = 0
+            if toks[:1] == ["a"]:
+                head = 1
+            rest = toks[head:]
+            pairs = len(rest) // 2
+            shape_ok = len(rest) % 2 == 0 and all(rest[2 * i] == "," and rest[2 * i + 1] == "a" for i in range(pairs))
+            if head == 0:
+                member = shape_ok and op == "*" and (pairs <= 1 if tail == "?" else True)
+                exp_trees = 1
+                exp = ((), tuple(pair for _ in range(pairs)) if tail == "*" else (pair if pairs else None))
+            else:
+                member = shape_ok
+                exp_trees = pairs + 1 if tail == "*" else min(pairs, 1) + 1
+                exp = (tuple("a" for _ in range(pairs + 1)), () if tail == "*" else None)
+            out_n = G.run_parse(glr_n, text)
+            out = G.run_parse(glr_g, text)
+            if out.kind == "other":
+                ctx.fail("greedy-glr-raises-other-exception", error=repr(out.exc)[:200], **info)
+            if not member:
+                if out.kind == "ok":
+                    ctx.fail("greedy-grammar-accepts-non-sentence-of-nongreedy-form", **info)
+                continue
+            if out.kind != "ok":
+                ctx.fail("greedy-form-rejects-sentence-of-nongreedy-form", **info)
+            # the twin pins the reference itself: the non-greedy form has one tree per split
+            if out_n.kind != "ok" or G.forest_len(out_n.value)[0] != exp_trees:
+                ctx.fail("nongreedy-separator-form-differs-from-reference", expected_trees=exp_trees,
+                         got=repr(out_n.kind == "ok" and G.forest_len(out_n.value)[0]), nongreedy_grammar=text_n, **info)
+            nt, loop = G.forest_len(out.value)
+            got = sorted({repr(conv(glr_g.call_actions(out.value[i]))) for i in range(min(nt or 0, 50))})
+            if got != [repr(conv(exp))]:
+                ctx.fail("greedy-repetitions-do-not-give-the-single-maximal-tree", got=got, expected=repr(conv(exp)),
+                         trees=nt, **info)
+            ctx.label("greedy-separator-sentences")
+            if exp_trees >= 2:
+                ctx.nontrivial([op, tail, sepkind, text],
+                               sample={"greedy_grammar": text_g, "input": text, "trees_of_nongreedy_form": exp_trees,
+                                       "greedy_result": got[0]})
+
+
+def enum_greedy_sep(tier):
+    def it():
+        for op in ("+", "*"):
+            for tail in ("*", "?"):
+                for sep in ("terminal", "rule"):
+                    yield {"op": op, "tail": tail, "sep": sep, "max_len": 7 if tier == "quick" else 9}
+    return it()
+
+
 # ---------------------------------------------------------------- strategies
 @st.composite
 def sugar_cases(draw):
@@ -565,6 +641,7 @@ SUBCHECKS = [
     SubCheck("documentation-examples", run_equiv, enumerate=enum_docs, shards={"quick": 8, "thorough": 8}),
     SubCheck("random-sugar", run_equiv, strategy=strat_sugar, examples={"quick": 1600, "thorough": 16000}),
     SubCheck("greedy-pairs-exhaustive", run_greedy, enumerate=enum_greedy),
+    SubCheck("greedy-with-separator", run_greedy_sep, enumerate=enum_greedy_sep),
     SubCheck("random-greedy-sequences", run_greedy, strategy=strat_greedy, examples={"quick": 640, "thorough": 6400}),
 ]
 
